@@ -435,6 +435,7 @@ def run(ck, ctx):
     print_once(ck, ctx)
     fancy_console(ck, ctx)
     RL.termination_ctors(ck, ctx, "status")
+    RL.budget(ck, ctx, "status")
     from . import C19 as R19
     R19.update_each_iteration(ck, ctx)
 
